@@ -591,6 +591,13 @@ func judgeRepeatCase(c repeatCase, rec *hx.Rec) string {
 	if c.N < 2 || c.N > 100 {
 		return "malformed case"
 	}
+	if est := rc.EstimateExpansion(c.Text, c.Cfg.RC()); est > 2e4 {
+		// a mutation can turn a FOR count into a huge number; this check runs in-process, without a memory cap
+		if rec != nil {
+			rec.Discard("expansion_estimate_above_bound")
+		}
+		return ""
+	}
 	cfg := asmG(c.Cfg)
 	first := wdString(gmars.CompileWarrior(strings.NewReader(c.Text), cfg))
 	for r := 1; r < c.N; r++ {
